@@ -2,6 +2,7 @@ import NflowsModel.Real.Bridge
 import NflowsModel.Lemmas.Knots
 import NflowsModel.Lemmas.Glue
 import NflowsModel.Lemmas.SplineAssembly
+import NflowsModel.Lemmas.SplineExec
 /-!
 # C09 — spline transformers are increasing bijections of their box, identity in the tails
 
@@ -21,6 +22,29 @@ theorem knots_valid {K : ℕ} (u : Fin K → ℝ) (m left right : ℝ) (hK : 0 <
     ∀ k < K, Knots.knot left right (Knots.widths m u) k < Knots.knot left right (Knots.widths m u) (k+1) :=
   ⟨Knots.knot_zero _ _ _, Knots.knot_last _ _ _ (Knots.widths_sum u hK),
    fun k hk => Knots.knot_strict _ _ _ hlr (Knots.widths_pos u hm0 hmK) k hk⟩
+
+/-- **Knots are valid — on the executable stage-A code itself** (`flooredSoftmax` then `rqKnots`, the list functions the
+    driver runs, instantiated at the reals): for EVERY non-empty unnormalised vector `u`, floor `0 ≤ m`, `m·K ≤ 1` and
+    `lo < hi` the executed knot list has `K+1` entries, starts at `lo`, ends at `hi` and strictly increases.
+    (`e` interprets the Python-side double constants; the hypotheses say it does so consistently.) -/
+theorem exec_knots_valid (e : Float → ℝ) (m lo hi : Float) (u : List ℝ) (hu : u ≠ [])
+    (hm0 : 0 ≤ e m) (hc : e (1 - m * u.length.toFloat) = 1 - e m * u.length) (hmK : e m * u.length ≤ 1)
+    (hlt : e lo < e hi) (hd : e (hi - lo) = e hi - e lo) :
+    let kn := (rqKnots (realX e) lo hi (flooredSoftmax (realX e) m u)).1
+    kn.length = u.length + 1 ∧ kn.head? = some (e lo) ∧ kn.getLast? = some (e hi) ∧ kn.Pairwise (· < ·) := by
+  have hv := SplineExec.flooredSoftmax_valid e m u hu hm0 hc hmK
+  have hne : flooredSoftmax (realX e) m u ≠ [] := by
+    intro h
+    have := hv.2; rw [h] at this; simp at this
+  have hlen : (flooredSoftmax (realX e) m u).length = u.length := by
+    simp [SplineExec.flooredSoftmax_eq, SplineExec.softmaxG_length]
+  have := SplineExec.rqKnots_valid e lo hi (flooredSoftmax (realX e) m u) hne hv.1 hv.2 hlt hd
+  simpa [hlen] using this
+
+/-- executed softmax: positive entries summing to one, for every non-empty input -/
+theorem exec_softmax_valid (e : Float → ℝ) (u : List ℝ) (hu : u ≠ []) :
+    (∀ y ∈ softmaxG (realX e) u, 0 < y) ∧ (softmaxG (realX e) u).sum = 1 :=
+  ⟨SplineExec.softmaxG_pos e u, SplineExec.softmaxG_sum e u hu⟩
 
 /-- **Bin search**: `sum(x ≥ knots) - 1` with the last knot moved up by any `eps > 0` returns, for
     `x ∈ [x₀, x_K]`, an index `< K` whose half-open bin contains `x` (the last bin is closed). -/
